@@ -217,7 +217,8 @@ type stored struct {
 // through add-chain / add-pre-chain of a real front end and then integrated.
 type world struct {
 	size   int
-	log    *reflog.Log
+	log    *reflog.Log   // populated through the front end
+	logs   []*reflog.Log // log and, for large histories, its replicas
 	subs   []*sub
 	stored []stored
 	decode []sync.Once // decode oracle evaluated once per index on bytes proven equal to stored
@@ -269,9 +270,34 @@ func buildWorld(h *hierarchy, subs []*sub, size, workers int) (*world, error) {
 		w.stored = append(w.stored, stored{leaf: lf.LeafValue, extra: lf.ExtraData})
 	}
 	w.decode = make([]sync.Once, size)
+	// The reference log serialises its requests (and recomputes the tree head for each); large
+	// histories are therefore replicated: every replica is fed the very leaves the front end
+	// queued (value, extra data, identity hash) in index order and must hold identical bytes.
+	w.logs = []*reflog.Log{w.log}
+	if size > 64 {
+		for len(w.logs) < 8 && len(w.logs) < workers {
+			l := reflog.New(treeID)
+			for i := 0; i < size; i++ {
+				lf := w.log.Leaf(i)
+				if _, err := l.QueueLeaf(context.Background(), &trillian.QueueLeafRequest{LogId: treeID,
+					Leaf: &trillian.LogLeaf{LeafValue: lf.LeafValue, ExtraData: lf.ExtraData, LeafIdentityHash: lf.LeafIdentityHash}}); err != nil {
+					return nil, err
+				}
+			}
+			l.Sequence(-1, 1800000000000000000)
+			for i := 0; i < size; i++ {
+				a, b := l.Leaf(i), w.log.Leaf(i)
+				if l.Size() != size || !proto.Equal(a, b) {
+					return nil, fmt.Errorf("replica of the %d-leaf history differs at index %d", size, i)
+				}
+			}
+			l.ResetCalls()
+			w.logs = append(w.logs, l)
+		}
+	}
 	w.pool = make(chan *cx, workers)
 	for k := 0; k < workers; k++ {
-		rec := &recClient{Log: w.log}
+		rec := &recClient{Log: w.logs[k%len(w.logs)]}
 		f := w.newFE(rec, &fe.Clock{T: time.Unix(1900000000, 0)})
 		lc, err := client.New("http://log.example/log", &http.Client{Transport: fe.RoundTripper{F: f}}, jsonclient.Options{Logger: nolog{}})
 		if err != nil {
